@@ -214,6 +214,11 @@ def bounded(ctx, b):
 
 def run(ctx):
     ctx.frame("readers", frame_obligations)
+    # the SCC reader is the one reader that keeps its parser on the reader object: read() resets it before anything
+    # else, and a timecode line keeps no state of its own (contracts shared with C05 / C06 / C16)
+    import props.C06_line as LI
+    LI.prove_read_head(ctx)
+    LI.prove_line(ctx)
     ctx.bounded("histories", "sample documents of the six input formats (multi-language SAMI / DFXP, styles, layouts, "
                 "pop-on and roll-up SCC): every order of two documents on one reader object then the first again, "
                 "editing one result (add_style, caption style, nodes, list) and unrelated writes in between, "
